@@ -1,6 +1,7 @@
 package harness
 
 import (
+	"fmt"
 	"regexp"
 	"sort"
 	"strconv"
@@ -157,7 +158,22 @@ func (g *Gen) oddSpellings(p *prng, name, base string) []string {
 		}
 		out = append(out, head+suf)
 	}
+	// the same suffix behind another separator (1.0-rc.1 / 1.0+rc.1 / 1.0_rc.1)
+	if len(suf) > 1 && strings.ContainsRune("-+_~.", rune(suf[0])) {
+		for _, sep := range []byte("-+_~") {
+			if sep != suf[0] {
+				out = append(out, head+string(sep)+suf[1:])
+			}
+		}
+	}
 	if m != nil {
+		// calendar versions: other days of the same year (a zone's DST switch, a
+		// leap day, a month boundary are particular days)
+		if c := strings.Split(m[2], "."); len(c) == 3 && len(c[0]) == 4 && (strings.HasPrefix(c[0], "19") || strings.HasPrefix(c[0], "20")) {
+			for k := 0; k < 60; k++ {
+				out = append(out, fmt.Sprintf("%s%s.%02d.%02d%s", m[1], c[0], 1+p.n(12), 1+p.n(31), m[3]))
+			}
+		}
 		nd := len(digitRun.FindAllString(m[2], -1))
 		out = append(out, m[1]+replaceNth(digitRun, m[2], p.n(nd), "18446744073709551617")+m[3])
 		// carry pairs: a.(b-1).(c+2^k) next to a.b.c - what a bit-packed key
@@ -300,8 +316,8 @@ func (g *Gen) familyOf(p *prng, name, base string) family {
 		j := p.n(i + 1)
 		rest[i], rest[j] = rest[j], rest[i]
 	}
-	if len(f.cands) > 28 {
-		f.cands = f.cands[:28]
+	if len(f.cands) > 60 {
+		f.cands = f.cands[:60]
 	}
 	for _, c := range f.cands {
 		if len(f.vs) < 12 && tryV(e, c) {
